@@ -64,6 +64,7 @@ def main():
     ap.add_argument('unit')
     ap.add_argument('--repo', default='/tmp/repo-clean')
     ap.add_argument('--max', type=int, default=400)
+    ap.add_argument('--fn', default=None, help='only functions whose id contains this text')
     a = ap.parse_args()
     os.makedirs('/tmp/vt', exist_ok=True)
     subprocess.run(['git', '-C', a.repo, 'checkout', '-q', '--', '.'])
@@ -73,7 +74,7 @@ def main():
     st, info = run_unit(a.unit, a.repo)
     ncanary[0] = int(info.split('/')[1].rstrip('e')) if '/' in info else 0
     print(f'clean: {st} {info} (canaries={ncanary[0]})')
-    targets = [f for f in w.functions if f['kind'] == 'fn']
+    targets = [f for f in w.functions if f['kind'] == 'fn' and (a.fn is None or a.fn in f['id'])]
     results = []
     n = 0
     for f in targets:
